@@ -169,3 +169,8 @@ def _r23_4(ctx):
                'an output is treated as inscribed only if an inscription sits at the looked-up offset; inscriptions at other offsets of the same output are missed', f'{b.file}:{c.line}')
   ctx.floor('R23.5', 'Wallet::inscriptions() uses in the lock / preset-input bodies', n, 3)
   ctx.ob('R23.5', 'ord::wallet', 'no exact-satpoint lookup into Wallet::inscriptions() in the lock / preset-input bodies', True, '', nontrivial=False)
+
+
+# sensitivity pack (thorough tier): each seeded edit must be reported by the named rule instance
+MUTANTS = [{'name': 'seeded-C23-a', 'patch': 'C23-a/patch.diff', 'expect': ('R23.5', 'lock_non_cardinal_outputs', 'exact SatPoint lookup')},
+           {'name': 'seeded-C23-b', 'patch': 'C23-b/patch.diff', 'expect': ('R23.4', 'create_unsigned_send_or_burn_runes_transaction', 'preset runic inputs')}]
